@@ -108,6 +108,16 @@ func main() {
 			if len(os.Args) > 2 && os.Args[2] == "sticky" {
 				r = ruleSticky(c, "itertools", stickyByValue)
 			}
+			if len(os.Args) > 3 && os.Args[2] == "argindex" {
+				r = ruleArgIndex(c, os.Args[3])
+			}
+			if len(os.Args) > 3 && os.Args[2] == "staleptr" {
+				r = ruleStalePtr(c, os.Args[3])
+			}
+			if len(os.Args) > 3 && os.Args[2] == "sibling" {
+				pk := os.Args[3]
+				r = ruleSiblingAppend(c, func(f string) bool { return strings.Contains(f, pk) })
+			}
 			if len(os.Args) > 2 && os.Args[2] == "makecap" {
 				r = ruleMakeCapAny(c, func(string) bool { return true })
 			}
@@ -254,6 +264,9 @@ func main() {
 		}
 	}()
 	pprof.StopCPUProfile()
+	if os.Getenv("MAMBA_PROVESTATS") != "" {
+		fmt.Fprintf(os.Stderr, "prove1 calls, high-water mark per top-level goal: %d\n", proveCallsHigh)
+	}
 	os.Exit(code)
 }
 
